@@ -371,7 +371,7 @@ func TestC15(t *testing.T) {
 	}
 	app.Sub.Note("the exhaustive part enumerated %d (array, representation, filter) points over all shards", idx)
 
-	col.Rapid(app.Sub, env.PerShard(env.Pick(30000, 1000000)), func(t *rapid.T) {
+	col.Rapid(app.Sub, env.PerShard(env.Pick(200000, 2000000)), func(t *rapid.T) {
 		c := &c15Case{}
 		if rapid.IntRange(0, 3).Draw(t, "records") == 0 {
 			// key names that collide with the special properties size/first/last matter: an entry lacking
